@@ -24,7 +24,7 @@ REPO = os.environ.get('PYVC_REPO', '/repo')
 # ----------------------------------------------------------------------------
 # cy2py
 
-_CTYPES = (r'(?:const\s+)?(?:unsigned\s+)?(?:double|float|int|long\s+long|long|short|char|bint|Py_ssize_t|size_t|object|'
+_CTYPES = (r'(?:const\s+)?(?:unsigned\s+)?(?:double|float|int|long\s+long|long|short|char|bint|void|Py_ssize_t|size_t|object|'
            r'np\.ndarray|np\.[a-z0-9_]+_t)\s*(?:\[[^\]]*\])?')
 _re_cdef_var = re.compile(r'^(\s*)cdef\s+(' + _CTYPES + r')\s*(.*)$')
 _re_cdef_fun = re.compile(r'^(\s*)c?p?def\s+(?:inline\s+)?(?:' + _CTYPES + r'\s+)?([A-Za-z_][A-Za-z0-9_]*)\s*\(')
